@@ -394,13 +394,36 @@ def split_function_test(function_test: str) -> list[str]:
     elif function_test == 'function(*)':
         return ['*']
 
-    parts = function_test[9:].partition(') as ')
-    if parts[0]:
-        sequence_types = parts[0].split(', ')
-        sequence_types.append(parts[2])
+    # Find the closing parenthesis of the parameters, that can be function tests
+    depth = 0
+    for k in range(9, len(function_test)):
+        if function_test[k] == '(':
+            depth += 1
+        elif function_test[k] == ')':
+            if not depth:
+                break
+            depth -= 1
     else:
-        sequence_types = [parts[2]]
+        return []
 
+    params, return_type = function_test[9:k], function_test[k + 1:]
+    if not return_type.startswith(' as '):
+        return []
+
+    sequence_types = []
+    start = depth = 0
+    for k, ch in enumerate(params):
+        if ch == '(':
+            depth += 1
+        elif ch == ')':
+            depth -= 1
+        elif ch == ',' and not depth:
+            sequence_types.append(params[start:k].strip())
+            start = k + 1
+    if params[start:].strip():
+        sequence_types.append(params[start:].strip())
+
+    sequence_types.append(return_type[4:])
     return sequence_types
 
 
